@@ -86,11 +86,21 @@ func readPointsFromIO(data io.ReadCloser, points chan<- edge.PointMessage, preci
 		if !in.Scan() {
 			return fmt.Errorf("invalid replay file format, expected another line")
 		}
+		line := append([]byte(nil), in.Bytes()...)
 		mps, err := dbmodels.ParsePointsWithPrecision(
-			in.Bytes(),
+			line,
 			now,
 			precision,
 		)
+		// A string field may contain newlines, then the point continues on the following lines.
+		for err != nil && in.Scan() {
+			line = append(append(line, '\n'), in.Bytes()...)
+			mps, err = dbmodels.ParsePointsWithPrecision(
+				line,
+				now,
+				precision,
+			)
+		}
 		if err != nil {
 			return err
 		}
